@@ -1,7 +1,7 @@
 """C06 — angle and axis-angle constructors give proper right-handed rotations."""
 import algebra as A
 from algebra import El, ZERO, ONE
-from core import (Harness, sv, sm, sq, ss, Run, Conv, forms4, run_specs, report_dropped, ret_leaves, cmp_struct, single_ret)
+from core import (Harness, sv, sm, sq, ss, Run, Conv, forms4, run_specs, report_dropped, ret_leaves, cmp_struct, single_ret, parse_guard, flat)
 import facts
 import specs
 from specs import HALF, DEG2RAD
@@ -98,29 +98,55 @@ def check_axis_action(run, S, name, spec, kw):
 
 
 def check_basis_invert(run, S, name, spec, kw):
+    """r * invert(r) = one() for every ROTATION r, whatever the implementation (matrix inverse with a determinant test,
+    transpose, ...): the basis matrix is parametrised as a general rotation - M(q) of a unit quaternion in 3-D, [[c,s],[-s,c]]
+    with c^2 + s^2 = 1 in 2-D - and every feasible leaf N must satisfy N R = R N = 1.  A branch whose condition is
+    refuted by the parametrisation (det R == 0 with det R = 1) is infeasible."""
     n = spec[1]
     r = run.use_root(S, name)
     if r is None:
         run.ob('%s:%s:present' % (PROP, name), False, rule='root-present', expected='root', found='missing')
         return
-    o = r['out']
     where = r.get('span')
-    cv = Conv(S)
-    a = sm('a0.mat', n)
-    D = A.det(a)
-    ok = o['k'] == 'ite' and {o['t']['k'], o['e']['k']} == {'panic', 'ret'}
-    if not run.ob('%s:%s:shape' % (PROP, name), ok, rule='K5 guard pass-set', expected='Ite(det == 0, Panic, Return inverse)', found=[l['k'] for g, l in ret_leaves(o)], where=where):
-        return
-    gt = S.terms[o['c']]
-    gok = False
-    if gt[0] == 'a' and gt[1] == 'eq' and len(gt[2]) == 2:
-        d = cv.el(gt[2][0]) - cv.el(gt[2][1])
-        gok = (A.eq(d, D) or A.eq(d, -D)) and o['t']['k'] == 'panic'
-    run.ob('%s:%s:guard' % (PROP, name), gok, rule='K5 guard pass-set', expected='panics exactly when det == 0', found=S.show(o['c'])[:200], where=where)
-    ret = o['e'] if o['e']['k'] == 'ret' else o['t']
-    adj = A.adjugate(a)
-    exp = [[adj[c][r_] / D for r_ in range(n)] for c in range(n)]
-    cmp_struct(run, S, name, cv.val(ret['v']), exp, 'K3: Basis::invert is the matrix inverse', where=where)
+    key = '%s:%s' % (PROP, name)
+    comps = 'xyz'[:n]
+    rels = []
+    if n == 3:
+        R = specs.q_matrix(sq('r'))
+        rels = [specs.unit_quat_hyp('r')]
+    else:
+        sn, cs = specs.sincos(El.v('r.t'))
+        R = specs.rot2(sn, cs)
+    with specs.hyps(*rels):
+        env = {'a0.mat.%s.%s' % (comps[c], comps[r_]): R[c][r_] for c in range(n) for r_ in range(n)}
+        cv = Conv(S, env=env)
+        feasible = 0
+        for li, (guards, leaf) in enumerate(ret_leaves(r['out'])):
+            infeasible = False
+            for kind, tid, want in guards:
+                if kind != 'ite':
+                    continue
+                g_ = parse_guard(S, cv, tid)
+                if g_['kind'] == 'eq':
+                    d = (g_['a'] - g_['b']).norm()
+                    truth = want != g_['neg']
+                    if d.zero() and not truth:
+                        infeasible = True
+                    if d.is_const() and not d.zero() and truth:
+                        infeasible = True
+            if infeasible:
+                continue
+            feasible += 1
+            if not run.ob('%s:leaf%d:kind' % (key, li), leaf['k'] == 'ret', rule='K5', expected='a rotation is always invertible: Return', found='%s %s' % (leaf['k'], leaf.get('why', '')), where=where):
+                continue
+            N = cv.val(leaf['v'])
+            while len(N) == 1:
+                N = N[0]
+            I = A.identity(n)
+            for nm, P in (('left', A.matmul(N, R)), ('right', A.matmul(R, N))):
+                ok = all(A.eq(P[c][r_], I[c][r_]) for c in range(n) for r_ in range(n))
+                run.ob('%s:leaf%d:%s-inverse' % (key, li, nm), ok, rule='K3: invert(r) r = r invert(r) = one() for a general rotation r', expected='identity', found='holds' if ok else [A.show(x.norm(), 3) for x in flat(P)][:4], where=where)
+        run.ob(key + ':feasible', feasible >= 1, rule='K5', expected='at least one feasible outcome for a rotation', found=feasible, where=where)
 
 
 def run(tier):
